@@ -89,6 +89,23 @@ def form_case(ctx, form, kw=None):
     ctx.record({"form": form}, True)
 
 
+PARA = ["\n\n", "\n \n", "\n\t\n", "\n", "\r\n\r\n", "\n\n\n", " \n"]
+
+
+def multiline(rng, form):
+    """Multi-paragraph cell text (blank and whitespace-only lines inside labels, hints, choice labels,
+    defaults): text content that a line-oriented clean-up of the pretty output would damage."""
+    for sheet in ("survey", "choices"):
+        for row in form.get(sheet, []):
+            for k in list(row):
+                base = k.split("::")[0]
+                if base in ("label", "hint", "constraint_message", "default") and isinstance(row[k], str) and rng.random() < 0.5:
+                    if base == "default" and row.get("type") not in ("text", "string", "note"):
+                        continue
+                    cut = rng.randint(0, len(row[k]))
+                    row[k] = row[k][:cut] + rng.choice(PARA) + row[k][cut:] + rng.choice(["", "", rng.choice(PARA) + "end"])
+
+
 def explore(ctx, factor, bs):
     rng = ctx.rng
     n_trees = ctx.pick(400, 6000) * factor
@@ -98,6 +115,9 @@ def explore(ctx, factor, bs):
     for _ in range(n_forms):
         langs = rng.choice([[], [], ["en"], ["en", "fr"]])
         form = gen.gen_form(rng, langs=langs, plain_text=rng.random() < 0.3, p_ref_in_label=0.5, p_hint=0.6)
+        if rng.random() < 0.35:
+            multiline(rng, form)
+            ctx.count("multiline_text")
         form_case(ctx, form)
 
 
